@@ -128,6 +128,19 @@ def run(ctx):
             if path:
                 import struct
                 pts = [0, 1 << 63, 0x7ff0000000000000, 0xfff0000000000000, 0x7ff8000000000000, 0x3ff0000000000000, 0xbff0000000000000]
+                # specification-critical floats: every posit of the width near the ends of its range and around one, and the midpoints between neighbours
+                pn = px.p
+                pmid = S.Posit(n + 1, xty.es)
+                us = sorted({u for u in (list(range(1, min(6, pn.maxpos_bits))) + list(range(max(1, pn.maxpos_bits - 5), pn.maxpos_bits + 1))
+                                         + [pn.nar >> 1, (pn.nar >> 1) + 1, (pn.nar >> 1) - 1]) if 0 < u <= pn.maxpos_bits})
+                for u in us:
+                    for val in (pn.decode(u), pmid.decode(2 * u + 1) if u < pn.maxpos_bits else None, pmid.decode(2 * u - 1) if u > 1 else None):
+                        if val is None:
+                            continue
+                        b = S.F64.encode(val)
+                        if S.F64.decode(b) == val:
+                            pts += [b, b | (1 << 63), b + 1, b - 1]
+                pts = sorted(set(pts))
                 cells = [(p, p) for p in pts]
 
                 def fspec(xs, px=px):
@@ -146,6 +159,27 @@ def run(ctx):
                     continue
                 src = gcr.PTy('%s<%d>' % (xty.name, n), xty.tykey, n, xty.es)
                 routing_px(ctx, prog, xty, n, path)
+    # fixed -> generic conversions are exact whenever the value fits in N bits: routing per source regime cell
+    rc = rp = 0
+    for xty in XTYS:
+        for fname, src in FIXED.items():
+            path = prog.inherent(xty.tykey, 'from_' + fname)
+            if not path:
+                continue
+            for n in ([8, 16, 24, 32] if ctx.tier == 'quick' else [m for m in NS if m >= 4]):
+                before = len(ctx.findings)
+                c, p_ = rules_routing.check_conversion(ctx, prog, 'R7', '%s::from_%s' % (xty.name, fname), path, src, 'px', (n, xty.es), gargs={'N': n})
+                rc += c
+                rp += p_
+                # aggregate per function: keep only the first routing finding of this function
+                extra = [f for f in ctx.findings[before:] if f.rule == 'R7']
+                for f in extra[1:]:
+                    ctx.findings.remove(f)
+                for f in extra[:1]:
+                    f.instance = 'values'
+                    f.msg = '%s<%d>::from_%s: %s' % (xty.name, n, fname, f.msg)
+    ctx.count('fixed_to_generic_routing_cells', rc)
+    ctx.count('fixed_to_generic_routing_cells_proved', rp)
     ctx.require('C14 decided cells', tot, 3000)
     ctx.undecided['general_path'] = ('guard/sticky truncation at bit N, from_f64 by repeated halving (float arithmetic), integer paths beyond the heads, quire -> PxE2<N> rounding')
     ctx.notes.append('PxE1::from_u32 and PxE1::from_i64 are whole-body todo!() stubs and are excluded as such')
